@@ -1,21 +1,24 @@
 #!/usr/bin/env python3
-"""Copy a confirmed seeded change into /verif/seeded/<id>/ with what was run and what the checks reported.
-usage: tools/store_seed.py <id> [<src-dir>]   (reads /tmp/seedproc/<id>.{checks,confirm}.log)"""
+"""Copy a confirmed seeded change into /verif/seeded/<dest>/ with what was run and what the checks reported.
+usage: tools/store_seed.py <id> [<src-dir> [<proc-dir> [<dest-name> [<history note>]]]]   (reads <proc-dir>/<id>.{checks,confirm*}.log)"""
 import json, os, re, shutil, sys
 sid = sys.argv[1]
 src = sys.argv[2] if len(sys.argv) > 2 else "/tmp/seedout/" + sid
-dst = "/verif/seeded/" + sid
+proc = sys.argv[3] if len(sys.argv) > 3 else "/tmp/seedproc"
+dest = sys.argv[4] if len(sys.argv) > 4 else sid
+note = sys.argv[5] if len(sys.argv) > 5 else ""
+dst = "/verif/seeded/" + dest
 os.makedirs(dst, exist_ok=True)
 for f in ("patch.diff", "demo.diff", "notes.md"):
     if os.path.exists(os.path.join(src, f)):
         shutil.copy(os.path.join(src, f), os.path.join(dst, f))
 meta = json.load(open(os.path.join(src, "meta.json")))
-checks = open("/tmp/seedproc/%s.checks.log" % sid).read()
+checks = open("%s/%s.checks.log" % (proc, sid)).read()
 m = re.search(r"FIRED: (\{.*\})", checks, re.S)
 fired = json.loads(m.group(1)) if m else {}
 import glob
 res = []
-for f in sorted(glob.glob("/tmp/seedproc/%s.confirm*.log" % sid)):
+for f in sorted(glob.glob("%s/%s.confirm*.log" % (proc, sid))):
     res += [l for l in open(f).read().splitlines() if l.startswith("RESULT")]
 out = {
     "property": meta.get("property", sid[:3]),
@@ -25,6 +28,7 @@ out = {
     "files": meta.get("files"),
     "demo_cmd": meta.get("demo_cmd"),
     "agent_reported": {k: v for k, v in meta.items() if k.startswith("demo_") and k != "demo_cmd" or k.startswith("baseline")},
+    "baseline_with_patch": "rerun by me (see confirmed_by_me.result)" if any("baseline=[passed" in x for x in res) else "as reported by the authoring agent (agent_reported.baseline_with_patch); my confirmation covers the demonstration and the workspace build",
     "confirmed_by_me": {
         "how": "tools/confirm_seed.sh: fresh worktree of /repo HEAD; demo.diff applied -> demo_cmd must pass; patch.diff applied -> demo_cmd must fail; cargo build --workspace --offline; pinned baseline (tools/baseline.sh) with the patch; tests missing from the baseline rerun alone 3x",
         "result": res if res else "MISSING",
@@ -32,5 +36,14 @@ out = {
     "checks_run": "tools/run_seed.py: git -C /repo apply patch.diff; ./verif check C01..C20 (quick); git -C /repo checkout -- .",
     "checks_fired": fired,
 }
+if note:
+    out["history"] = note
+if os.path.exists(os.path.join(dst, "meta.json")):
+    try:
+        old = json.load(open(os.path.join(dst, "meta.json")))
+        if old.get("history") and not note:
+            out["history"] = old["history"]
+    except Exception:
+        pass
 json.dump(out, open(os.path.join(dst, "meta.json"), "w"), indent=1)
 print(sid, "stored; fired:", {k: [x.split("|")[1] for x in v] for k, v in fired.items()}, "|", (res[-1][:160] if res else "no RESULT"))
